@@ -1,4 +1,4 @@
 SPECIFICATION Spec
-CONSTANTS Depth = 4 Pre = 2 Deep = TRUE
+CONSTANTS Depth = 3 Pre = 2 Deep = TRUE
 INVARIANT Emit
 CHECK_DEADLOCK FALSE
